@@ -1,5 +1,5 @@
-CONSTANT WP = {"PutSingle", "PostSingle", "BulkDocs", "BulkDocsNE", "PutSingleNE", "ExtImport", "BlipPushRev"}
-CONSTANT RP = {"GetDoc", "GetRev", "OpenRevsAll", "OpenRevsList", "BulkGet", "AllDocs", "Changes", "Raw", "BlipPull", "PeerPush", "PeerPull"}
+CONSTANT WP <- TraceWP
+CONSTANT RP <- TraceRP
 CONSTANT MaxSteps = 4
 SPECIFICATION CSpec
 CONSTRAINT Progress
